@@ -41,9 +41,9 @@ var (
 		{"tcp-9000", 9000, "TCP"}, {"http-9000", 9000, "HTTP"}, {"grpc", 7070, "GRPC"}, {"http2", 7070, "HTTP2"},
 		{"mysql", 3306, "MySQL"}, {"tcp-3306", 3306, "TCP"}, {"http-3306", 3306, "HTTP"}, {"mongo", 27017, "Mongo"},
 		{"auto-90", 90, ""}, {"redis", 6379, "Redis"}, {"udp", 53, "UDP"},
-		{"http-15090", 15090, "HTTP"}, {"http-15021", 15021, "HTTP"}, {"tcp-15008", 15008, "TCP"},
+		{"http-15090", 15090, "HTTP"}, {"http-15021", 15021, "HTTP"},
 		{"http-15443", 15443, "HTTP"}, {"tls-15443", 15443, "TLS"},
-		// 15001 / 15006 (the sidecar's own virtual listeners) are exercised by corpus cases only: a service on
+		// 15001 / 15006 / 15008 (the sidecar's own listeners) are exercised by corpus cases only: a service on
 		// them is the known finding `addr-unique`, which would otherwise shadow everything else in its mesh
 	}
 	labelSets = []map[string]string{
@@ -67,17 +67,24 @@ type gen struct {
 	vipN      int
 	names     map[string]int
 	// what exists, to aim references at
-	allHosts  []string            // every service hostname (registry + ServiceEntry)
-	hostPorts map[string][]int    // hostname -> ports
-	subsets   map[string][]string // hostname -> subset names defined by some DestinationRule
-	gateways  []string            // ns/name
-	gwHosts   map[string][]string // ns/name -> server hosts
-	epIPs     []string
-	efSeq     int
-	ambient   bool
-	kube      []string
-	gwTarget  map[int]int
-	vsRoutes  []vsRouteRef // named http routes of VirtualServices on hosts that are services: targets for route-level EnvoyFilters
+	allHosts   []string            // every service hostname (registry + ServiceEntry)
+	hostPorts  map[string][]int    // hostname -> ports
+	subsets    map[string][]string // hostname -> subset names defined by some DestinationRule
+	gateways   []string            // ns/name
+	gwHosts    map[string][]string // ns/name -> server hosts
+	epIPs      []string
+	efSeq      int
+	ambient    bool
+	kube       []string
+	gwTarget   map[int]int
+	tlsServers []tlsServerRef
+	vsRoutes   []vsRouteRef // named http routes of VirtualServices on hosts that are services: targets for route-level EnvoyFilters
+}
+
+type tlsServerRef struct {
+	hosts []string
+	bind  string
+	port  uint32
 }
 
 type vsRouteRef struct {
@@ -753,6 +760,24 @@ func (g *gen) gateway() {
 		}
 		if g.ch(1, 6) {
 			s.Name = "srv-" + strconv.Itoa(i)
+		}
+		// duplicate servers: a TLS server often repeats the hosts (and bind) of an earlier TLS server of this or another
+		// Gateway - on the same port number, or on the other name of the same port (Service port vs. its target port)
+		if s.Tls != nil && s.Tls.Mode != networking.ServerTLSSettings_AUTO_PASSTHROUGH && s.Port.Number != 80 && s.Port.Number != 8080 {
+			if len(g.tlsServers) > 0 && g.ch(1, 3) {
+				prev := g.tlsServers[g.r.Intn(len(g.tlsServers))]
+				s.Hosts = append([]string{}, prev.hosts...)
+				s.Bind = prev.bind
+				if g.ch(1, 2) {
+					s.Port.Number = map[uint32]uint32{443: 8443, 8443: 443}[prev.port]
+					if s.Port.Number == 0 {
+						s.Port.Number = prev.port
+					}
+				} else {
+					s.Port.Number = prev.port
+				}
+			}
+			g.tlsServers = append(g.tlsServers, tlsServerRef{append([]string{}, s.Hosts...), s.Bind, s.Port.Number})
 		}
 		gw.Servers = append(gw.Servers, s)
 		g.gwHosts[key] = append(g.gwHosts[key], s.Hosts...)
